@@ -108,9 +108,9 @@ func c12Reference(sels []*gtfsrt.EntitySelector) *c12Expect {
 	unasserted := 0
 	explicit := map[string]bool{}
 	type fb struct {
-		f, t     bool
-		strict   bool // named by a descriptor that is exactly {route [, direction]}
-		order    int
+		f, t   bool
+		strict bool // named by a descriptor that is exactly {route [, direction]}
+		order  int
 	}
 	fbs := map[string]*fb{}
 	var fbOrder []string
